@@ -8,9 +8,9 @@ from .eng_ri import uses_of_locals
 LEVEL = 'other'
 
 AUDIT = {
-    '<io::fasta::Reader<B> as io::fasta::FastaRead>::read|unwrap|unwrap(Option::map(Iterator>::next(x0),read::{closure#0}{}))<std::string::String>':
+    '<io::fasta::Reader<B> as io::fasta::FastaRead>::read|unwrap|unwrap(Option::map(Iterator>::next(x0),closure{}))<std::string::String>':
         'str::splitn(2, ..) always yields at least one item (possibly the empty string), so the first next() is Some',
-    '<io::fastq::Reader<B> as io::fastq::FastqRead>::read|overflow-add|x0,1':
+    '<io::fastq::Reader<B> as io::fastq::FastqRead>::read|overflow-add|1,x0':
         'lines_read counts successful read_line calls of one record; it cannot reach usize::MAX (each line occupies at least one byte of an in-memory String)',
 }
 
@@ -184,6 +184,10 @@ def lp1(facts, rep):
             rl = [bb for bb, i in calls if i['fn'].endswith('BufRead::read_line')]
             if counted:
                 rep.ok(rule, key, b.loc(h), 'counted Range loop')
+                continue
+            cw = eng_gd.counted_while(b, h, body, backs)
+            if cw:
+                rep.ok(rule, key, b.loc(h), 'counted loop: ' + cw)
                 continue
             if not rl:
                 rep.bad(rule, key, b.loc(h), 'a loop of the record parser consumes no input (no read_line inside): it cannot '
